@@ -14,7 +14,8 @@ from vlib.common import Ctx, Broken, write_evidence, say  # noqa: E402
 # slowness can look like a hang, so they are reported only if they show up again in a second run of the check with
 # time limits four times as long (a real hang, deadlock or missing reconnect does not go away with more time)
 TIMING = re.compile(r"hang|timeout|stuck|stalled-not-released|blocked-want-admit|no-wait-event|no-reconnect|no-recovery|not-closed|not-started|"
-                    r"handler-missing|handler-not-entered|handlers:|healthy|alive|recv-count|wrote:|conn-closed|sibling|channel-open|gate:|flag-not-visible")
+                    r"handler-missing|handler-not-entered|handlers:|healthy|alive|recv-count|wrote:|conn-closed|sibling|channel-open|gate:|flag-not-visible|"
+                    r"^dial:|handler-stream|no-response|stale-listed:failed|stream-lost|ok-lost")
 
 
 def time_scale():
